@@ -50,6 +50,9 @@ type History struct {
 	// Reenter: operations performed from INSIDE a Stream callback (the At-th callback of the whole
 	// history, counting both kinds). Only used with the C01 oracle, with fresh sequence numbers.
 	Reenter []ReOp `json:"reenter,omitempty"`
+	// ZeroTS: the pushed messages are hand-built with a zero Timestamp (a caller that fills in only what the
+	// Reassembler documents it uses: the sequence number and the record type)
+	ZeroTS bool `json:"zero_timestamps,omitempty"`
 	// Far: the sequence numbers form two clusters more than a sort window apart in both directions.
 	Far bool `json:"far,omitempty"`
 }
@@ -63,6 +66,9 @@ type ReOp struct {
 func (h *History) String() string {
 	var sb strings.Builder
 	fmt.Fprintf(&sb, "max=%d timeout=%s base=%d:", h.MaxInFlight, time.Duration(h.TimeoutNs), h.Base)
+	if h.ZeroTS {
+		sb.WriteString(" [zero timestamps]")
+	}
 	for _, o := range h.Ops {
 		switch o.Kind {
 		case OpPushMsg, OpPushRaw:
@@ -239,6 +245,9 @@ func Execute(h *History, o ExecOpts) (tr *Trace) {
 				Timestamp: time.Unix(1700000000+int64(src%5), int64(src%1000)*1e6),
 				RawData:   RawBody(op.Seq, src),
 				Payload:   k,
+			}
+			if h.ZeroTS {
+				m.Timestamp = time.Time{}
 			}
 			tr.pushedPtr[m] = k
 			r.PushMessage(m)
